@@ -1482,6 +1482,7 @@ void TasmanianSparseGrid::readAscii(std::istream &ifs){
     if (T.compare("TASMANIAN SG end") == 0){ // version 3.0 did not include domain transform
         reached_eof = true;
     }else if (T.compare("custom") == 0){ // handle domain transform
+        if (!new_base) throw std::runtime_error("ERROR: wrong file format, domain transform specified for an empty grid");
         new_domain_transform_a.resize(new_base->getNumDimensions());
         new_domain_transform_b.resize(new_base->getNumDimensions());
         for(int j=0; j<new_base->getNumDimensions(); j++){
@@ -1494,6 +1495,7 @@ void TasmanianSparseGrid::readAscii(std::istream &ifs){
     if (!reached_eof){ // handle conformal maps, added in version 5.0
         getline(ifs, T);
         if (T.compare("asinconformal") == 0){
+            if (!new_base) throw std::runtime_error("ERROR: wrong file format, conformal mapping specified for an empty grid");
             new_conformal_asin_power = IO::readVector<IO::mode_ascii_type, int>(ifs, new_base->getNumDimensions());
             getline(ifs, T);
         }else if (T.compare("TASMANIAN SG end") == 0){
@@ -1506,6 +1508,7 @@ void TasmanianSparseGrid::readAscii(std::istream &ifs){
     if (!reached_eof){ // handle level limits, added in version 5.1
         getline(ifs, T);
         if (T.compare("limited") == 0){
+            if (!new_base) throw std::runtime_error("ERROR: wrong file format, level limits specified for an empty grid");
             new_llimits = IO::readVector<IO::mode_ascii_type, int>(ifs, new_base->getNumDimensions());
             getline(ifs, T);
         }else if (T.compare("unlimited") == 0){
@@ -1519,6 +1522,7 @@ void TasmanianSparseGrid::readAscii(std::istream &ifs){
     if (!reached_eof){ // handles additional data for dynamic construction, added in version 7.0 (development 6.1)
         getline(ifs, T);
         if (T.compare("constructing") == 0){
+            if (!new_base) throw std::runtime_error("ERROR: wrong file format, construction data specified for an empty grid");
             new_using_dynamic_construction = true;
             new_base->readConstructionData(ifs, mode_ascii);
             getline(ifs, T); // clear the final std::endl after reading the block
@@ -1571,6 +1575,7 @@ void TasmanianSparseGrid::readBinary(std::istream &ifs){
     }(IO::readNumber<IO::mode_binary_type, char>(ifs));
 
     char flag = IO::readNumber<IO::mode_binary_type, char>(ifs);
+    if (!new_base and flag == 'y') throw std::runtime_error("ERROR: wrong binary file format, domain transform specified for an empty grid");
     if (flag == 'y'){
         new_domain_transform_a = IO::readVector<IO::mode_binary_type, double>(ifs, new_base->getNumDimensions());
         new_domain_transform_b = IO::readVector<IO::mode_binary_type, double>(ifs, new_base->getNumDimensions());
@@ -1579,6 +1584,7 @@ void TasmanianSparseGrid::readBinary(std::istream &ifs){
     }
 
     flag = IO::readNumber<IO::mode_binary_type, char>(ifs); // conformal domain transform?
+    if (!new_base and flag == 'a') throw std::runtime_error("ERROR: wrong binary file format, conformal transform specified for an empty grid");
     if (flag == 'a'){
         new_conformal_asin_power = IO::readVector<IO::mode_binary_type, int>(ifs, new_base->getNumDimensions());
     }else if (flag != 'n'){
@@ -1586,6 +1592,7 @@ void TasmanianSparseGrid::readBinary(std::istream &ifs){
     }
 
     flag = IO::readNumber<IO::mode_binary_type, char>(ifs); // limits
+    if (!new_base and flag == 'y') throw std::runtime_error("ERROR: wrong binary file format, level limits specified for an empty grid");
     if (flag == 'y'){
         new_llimits = IO::readVector<IO::mode_binary_type, int>(ifs, new_base->getNumDimensions());
     }else if (flag != 'n'){
@@ -1594,6 +1601,7 @@ void TasmanianSparseGrid::readBinary(std::istream &ifs){
 
     bool reached_eof = false;
     flag = IO::readNumber<IO::mode_binary_type, char>(ifs); // construction data
+    if (!new_base and flag == 'c') throw std::runtime_error("ERROR: wrong binary file format, construction data specified for an empty grid");
     if (flag == 'c'){ // handles additional data for dynamic construction, added in version 7.0 (development 6.1)
         new_using_dynamic_construction = true;
         new_base->readConstructionData(ifs, mode_binary);
